@@ -1,7 +1,7 @@
 """C05 — a Solution faithfully reports the evaluated problem (DESIGN §5 C05)."""
 from .common import *
 from .feas import (check_feasibility_rule, origins, PathEval, const_operand, error_propagates, absent_inserts, false_leads_to_error, enum_tests, result_kind, f64_of_operand, item_calls,
-                   dominates_ok, dominates_sem, must_pass_sem, loop_must2 as loop_must, mustcall2 as mustcall, returned_struct, truth_table, canon, field_is_none, value_sources, with_renormalised)
+                   dominates_ok, dominates_sem, must_pass_sem, loop_must2 as loop_must, mustcall2 as mustcall, returned_struct, truth_table, canon, field_is_none, value_sources, with_renormalised, all_defs)
 
 SOME0 = ('std::option::Option::Some', '0')
 INST = 'v1::Instance'; DV = 'v1::DecisionVariable'; CON = 'v1::Constraint'; RC = 'v1::RemovedConstraint'; EC = 'v1::EvaluatedConstraint'
@@ -90,7 +90,7 @@ def carried_flags(body, lo, hs, uses):
     blocks = lo[4]; out = []
     for h in sorted(hs):
         if body.locals[h] != 'bool': continue
-        dbs = [bi for k, bi, d in body.defs_of(h)]
+        dbs = [bi for k, bi, d in all_defs(body, h)]          # also `*flag = ..` through a `&mut` handed to an inlined helper
         inside = [bi for bi in dbs if bi in blocks]
         def reaches(bi, ub):
             return ub is None or ub < 0 or bi == ub or ub in body.reach(body.succ(bi))
@@ -106,7 +106,7 @@ def flag_step(ctx, body, cands, lo, feas_calls):
     nextc, header, some_bb, none_bb, blocks = lo
     tests = {c.bb for c in feas_calls if c.bb in blocks}
     def starts_true(f):
-        outs = [d for k, bi, d in body.defs_of(f) if bi not in blocks and header in body.reach(body.succ(bi))]       # what the flag can hold when the loop is entered
+        outs = [d for k, bi, d in all_defs(body, f) if bi not in blocks and header in body.reach(body.succ(bi))]       # what the flag can hold when the loop is entered
         return bool(outs) and all('rv' in d and d['rv']['k'] == 'use' and d['rv']['ops'][0].get('v', '').replace('const ', '') == 'true' for d in outs)
     groups = [list(cands)] if len(cands) > 1 and all(starts_true(f) for f in cands) else [[f] for f in cands]
     pe = PathEval(ctx, body)
@@ -497,7 +497,10 @@ def check_bound_rules(ctx):
             ctx.check(complete and not skipped and bool(arr.get(c.bb)), R + '/check_bound/every-bounded-entry', 'T-LOOPMUST', b.name, 'an entry with a bound can skip the test', b.site(gcall.bb))
         si = ctx.S.slice_operand(b, nextc.args[0])
         restr = sorted({x.item for x in si.call_objs if x.item in RESTRICTING and 'Iterator' in (x.trait or '')})
-        ctx.check(not restr and 2 in si.params and si.has_field('v1::State', 'entries'), R + '/check_bound/all-entries', 'T-LOOPMUST', b.name, 'loop does not visit all state entries %s' % restr, b.site(nextc.bb))
+        # every entry is looked up: no `continue` in front of the lookup for ids outside some "relevant" set (seed C14-20) -- whether an entry has a bound is the only filter
+        looked_up = bool(gets) and must_pass_sem(ctx, b, some_bb, {header}, {g.bb for g in gets if g.bb in blocks})
+        ctx.check(not restr and 2 in si.params and si.has_field('v1::State', 'entries') and looked_up, R + '/check_bound/all-entries', 'T-LOOPMUST', b.name,
+                  'loop does not look every state entry up in the bounds %s' % (restr or '(an entry can come round the loop without the lookup)'), b.site(nextc.bb))
     # Bound::contains: `lower - atol <= v && v <= upper + atol`.  A small pure function: decided as a truth table on a grid of
     # points around both ends (any way of writing it: `&&`, De Morgan, `(lo..=hi).contains(&v)`, clamp, early returns);
     # the expression-shape form of the rule is only the fall-back when the body cannot be interpreted.
@@ -600,7 +603,18 @@ def bound_default_table(ctx, rule, fb, sibling=None):
         if ntests != 1: return tab
         if fb.hdr.get('item') != 'try_from':
             for c in conv: error_propagates(ctx, rule + '/some/error-propagates', fb, [c], 'bound conversion')
-    ctx.check(tab.get('some') == 'converted' and tab.get('none-binary') == (0.0, 1.0) and tab.get('none-other') == 'Bound::default', rule + '/table', 'T-BRANCHFX', fb.name,
+    # a declared bound is taken as it is: the only bound these functions may put together from parts is the binary default [0, 1] -- or the declared (lower, upper) itself;
+    # anything computed (`Bound::new(b.lower().min(0.0), b.upper().max(0.0))` for semi-continuous kinds, seed C05-20) widens or narrows what the variable declares
+    widened = []
+    for x in fb.calls:
+        if not x.path.endswith('Bound::new') or len(x.args) != 2: continue
+        vals = tuple(f64_of_operand(fb, a) for a in x.args)
+        if vals == (0.0, 1.0): continue
+        es = [T.expr(fb, a) for a in x.args]
+        if all(e[0] in ('place', 'proj') and T.own_fields(e)[-1:] == [('v1::Bound', f)] for e, f in zip(es, ('lower', 'upper'))): continue
+        widened.append(x)
+    if widened: tab = dict(tab, computed='Bound::new(%s)' % ', '.join(T.expr_str(T.expr(fb, a))[:40] for a in widened[0].args))
+    ctx.check(not widened and tab.get('some') == 'converted' and tab.get('none-binary') == (0.0, 1.0) and tab.get('none-other') == 'Bound::default', rule + '/table', 'T-BRANCHFX', fb.name,
               'unset-bound table is %s, expected Some=>converted, None+Binary=>[0,1], None=>Bound::default()' % tab, fb.site(), table=str(tab))
     return tab
 
